@@ -454,6 +454,102 @@ def r_matrix_ops(text, mats):
     return text, count
 
 
+def r_inline_lambdas(text):
+    """R24: a local lambda `const auto f = [captures](params) { body };` is inlined at every call `f(args)` as a GNU
+    statement expression:  ({ __typeof__(E1) r; P1 p1 = a1; ..; body with `return E;` -> `{ r = (E); goto end; }`; end: r; })
+    where E1 is the first returned expression (C++ requires all returns of a lambda to agree in type).  Captures need no
+    translation: the inlined body is in the scope of the captured objects (by-value captures are read at the call instead
+    of at the definition -- stated).  A `throw` inside the body leaves the ENCLOSING function, as the exception would."""
+    count = 0
+    rx = re.compile(r"(?:const\s+)?auto\s+([A-Za-z_]\w*)\s*=\s*\[([^\]]*)\]\s*\(")
+    while True:
+        blank = blank_comments_and_strings(text)
+        m = rx.search(blank)
+        if not m:
+            break
+        name = m.group(1)
+        op = m.end() - 1
+        cp = match_close(blank, op)
+        params = text[op + 1:cp].strip()
+        k = cp + 1
+        mm = re.compile(r"\s*(?:mutable\s*)?(?:->\s*[^{]+?)?\s*\{").match(blank, k)
+        if not mm:
+            raise ExtractionError("lambda %s: body not found" % name)
+        ob = mm.end() - 1
+        cb = match_close(blank, ob)
+        body = text[ob + 1:cb]
+        semi = blank.index(";", cb)
+        plist = [p.strip() for p in split_args(params)] if params and params != "void" else []
+        pdecl = []
+        for p_ in plist:
+            pm = re.match(r"(?s)(.*?)([A-Za-z_]\w*)$", p_)
+            if not pm:
+                raise ExtractionError("lambda %s: cannot parse parameter %r" % (name, p_))
+            pdecl.append((pm.group(1).replace("&", " ").strip(), pm.group(2)))
+        bb = blank_comments_and_strings(body)
+        rets = list(re.finditer(r"\breturn\b", bb))
+        first_expr = None
+        if rets:
+            r0 = rets[0]
+            e = r0.end()
+            j = e
+            while j < len(bb):
+                if bb[j] in "([{":
+                    j = match_close(bb, j)
+                elif bb[j] == ";":
+                    break
+                j += 1
+            first_expr = body[e:j].strip()
+        # remove the definition
+        text = text[:m.start()] + "/* R24: lambda %s inlined at its call sites */" % name + text[semi + 1:]
+        # inline the calls
+        crx = re.compile(r"(?<![A-Za-z_0-9.>])" + re.escape(name) + r"\s*\(")
+        inst = 0
+        pos = 0
+        while True:
+            blank = blank_comments_and_strings(text)
+            c = crx.search(blank, pos)
+            if not c:
+                break
+            cop = c.end() - 1
+            ccp = match_close(blank, cop)
+            args = split_args(text[cop + 1:ccp]) if text[cop + 1:ccp].strip() else []
+            if len(args) != len(pdecl):
+                raise ExtractionError("lambda %s: call with %d arguments, %d parameters" % (name, len(args), len(pdecl)))
+            inst += 1
+            end = "verif_lam_%s_end%d" % (name, inst)
+            rv = "verif_lam_%s_ret%d" % (name, inst)
+            b2 = body
+            if first_expr is not None:
+                # return E;  ->  { rv = (E); goto end; }
+                outb, q = [], 0
+                bb2 = blank_comments_and_strings(b2)
+                for r_ in re.finditer(r"\breturn\b", bb2):
+                    e = r_.end()
+                    j = e
+                    while j < len(bb2):
+                        if bb2[j] in "([{":
+                            j = match_close(bb2, j)
+                        elif bb2[j] == ";":
+                            break
+                        j += 1
+                    outb.append(b2[q:r_.start()])
+                    outb.append("{ %s = (%s); goto %s; }" % (rv, b2[e:j].strip(), end))
+                    q = j + 1
+                outb.append(b2[q:])
+                b2 = "".join(outb)
+                pre = "__typeof__(%s) %s; " % (first_expr, rv)
+                post = " %s: ; %s; " % (end, rv)
+            else:
+                pre, post = "", " (void)0; "
+            binds = "".join("%s %s = (%s); " % (t, n, a) for (t, n), a in zip(pdecl, args))
+            rep = "({ " + pre + binds + b2 + post + "})"
+            text = text[:c.start()] + rep + text[ccp + 1:]
+            pos = c.start() + len(rep)
+            count += 1
+    return text, count
+
+
 def r_auto(text):
     """R22: `auto x = e;`, `const auto x = e;`, `const auto & x = e;` -> `__auto_type x = e;` (the declared object
     is a copy; reference-ness is dropped, which is unobservable for the read-only uses in the extracted code)."""
